@@ -193,12 +193,10 @@ pub fn check_tiling(t: &Torrent, o: &Outcome, a: &str, stats: &mut HashMap<&'sta
                 let tile_no = tiles.iter().position(|tl| *tl == (*b, *l));
                 let fresh = match &ep {
                     None => true,
-                    Some(x) if x.piece != iu => {
-                        if !x.done && !x.cancelled && !x.interrupted {
-                            return Some(Finding { sig: "C10:request-names-other-piece".into(), what: format!("Request({},{},{}) while piece {} is being tiled ({} of {} tiles requested)", i, b, l, x.piece, x.sent, x.tiles.len()), at_seq: e.seq });
-                        }
-                        true
-                    }
+                    // another piece: the manager has re-assigned this peer (checked just below: the
+                    // request must name the piece the manager assigns now); how the previous assignment
+                    // ended - cancel frames, a silent re-assignment - is the client's business
+                    Some(x) if x.piece != iu => true,
                     Some(x) => match tile_no { Some(k) if x.requested[k] => x.done || x.cancelled || x.interrupted, _ => false },
                 };
                 if fresh {
@@ -206,7 +204,15 @@ pub fn check_tiling(t: &Torrent, o: &Outcome, a: &str, stats: &mut HashMap<&'sta
                         *stats.entry(if x.done { "epochs_completed" } else { "epochs_abandoned" }).or_default() += 1;
                     }
                     let assigned = snap.as_ref().and_then(|s| s.peers.iter().find(|p| p.addr == a)).and_then(|p| p.piece_index);
-                    if assigned != Some(iu) {
+                    // the manager's reply can reach the task a moment before the manager's event is
+                    // logged (it may still be writing its log line): the event of this peer that
+                    // follows counts as well
+                    let assigned_next = o.events.iter().filter(|x| x.seq > e.seq && x.addr == a).find_map(|x| match &x.kind { EvKind::Mgr { after, .. } => Some(after.peers.iter().find(|p| p.addr == a).and_then(|p| p.piece_index)), _ => None }).flatten();
+                    // ... and so does any assignment of the last 5 s of virtual time: between the
+                    // manager's decision and the task's write another connection may have finished
+                    // the piece and the manager may have withdrawn the assignment again
+                    let assigned_recently = o.events.iter().rev().skip_while(|x| x.seq >= e.seq).take_while(|x| x.ms + 5_000 >= e.ms).any(|x| match &x.kind { EvKind::Mgr { after, .. } => after.peers.iter().any(|p| p.addr == a && p.piece_index == Some(iu)), _ => false });
+                    if assigned != Some(iu) && assigned_next != Some(iu) && !assigned_recently {
                         return Some(Finding { sig: "C10:request-for-unassigned-piece".into(), what: format!("Request({},{},{}) although the manager assigned {:?} to this peer", i, b, l, assigned), at_seq: e.seq });
                     }
                     let nt = tiles.len();
@@ -318,7 +324,24 @@ pub fn check_tiling(t: &Torrent, o: &Outcome, a: &str, stats: &mut HashMap<&'sta
 
 pub struct Scenario { pub cfg: SimCfg, pub desc: Value }
 
+/// Family: a long, fast download (megabytes per 10 s statistics window, tens of seconds): whatever
+/// the client learns about the peer's speed, the blocks stay at most 16 KiB and keep tiling.
+pub fn gen_long_fast(r: &mut Rng, seed: u64) -> Scenario {
+    let piece_len = 65536usize;
+    let n = r.range(50, 90) as usize;
+    let total = (n - 1) * piece_len + r.range(1, piece_len as u64) as usize;
+    let content = distinct_content(r, total, piece_len);
+    let torrent = Rc::new(Torrent::build(piece_len, "out.bin", vec![("out.bin".into(), total)], true, content, "http://sim.invalid/announce"));
+    let end_ms = 70_000;
+    let c = TilerCfg { id: peer_id(0), order: r.below(3) as u8, dup: 0, withhold: 0, short_first: 0, extra_unchoke: 0, latency_ms: (100, 220), choke_after: None, end_ms };
+    let desc = json!({"seed": seed, "family": "long-fast-download", "piece_length": piece_len, "pieces": n, "blocks_per_piece": 4, "peer": {"latency_ms": [100, 220]}});
+    let c2 = c.clone();
+    let peers = vec![PeerSpec { addr: addr(0), id: peer_id(0), entry: Entry::Dialled { from_announce: 0 }, make: Box::new(move |nth| if nth > 1 { None } else { Some(tiler(c2.clone())) }), chunk: 0, pipe: 1 << 20 }];
+    Scenario { cfg: SimCfg { torrent, peers, tracker: vec![], failpoints: None, max_virtual_ms: end_ms - 1000, stop_on_extract: true, linger_ms: 100, disk_on: disk_never, seed, pre: None, tracker_fn: None, driver: None }, desc }
+}
+
 pub fn gen_scenario(r: &mut Rng, seed: u64) -> Scenario {
+    if r.chance(1, 25) { return gen_long_fast(r, seed); }
     let piece_len: usize = match r.below(10) { 0 => 1, 1 => 16383, 2 => 16384, 3 => 16385, 4 => 32768, 5 => 40000, 6 => 32767, 7 => 49152, 8 => r.range(1, 70000) as usize, _ => 3 * 16384 + r.range(0, 2) as usize };
     let n = r.range(1, 6) as usize;
     let last = match r.below(5) { 0 => 1, 1 => piece_len, 2 => (piece_len % 16384).max(1), 3 => piece_len.saturating_sub(1).max(1), _ => r.range(1, piece_len as u64) as usize };
